@@ -8,6 +8,8 @@ import (
 	"runtime"
 	"strings"
 	"sync"
+	"sync/atomic"
+	"syscall"
 	"testing"
 	"time"
 
@@ -33,6 +35,9 @@ type c20Scn struct {
 	Pos    [2][]vfFD    `json:"pos"`
 	End    []c20Op      `json:"end"` // teardown calls (K: shutdown/close/abort, V: side) issued concurrently in phase 2
 	Phase2 []c20Prog    `json:"phase2"`
+	// Orch: packets are delivered by the orchestrator at quiescent points (as everywhere else);
+	// otherwise by timer goroutines of their own, in parallel with the API callers
+	Orch bool `json:"orch,omitempty"`
 }
 
 var c20Kinds = []string{"write", "write", "write", "write", "buffered", "abuffered", "getters", "setrel", "thresh", "onlow", "hb", "open", "rdl", "wdl", "maxmsg", "closestream", "state"}
@@ -66,9 +71,16 @@ func genC20(rt *rapid.T) c20Scn {
 		x.Progs = append(x.Progs, genC20Prog(rt, nStreams, 12))
 	}
 	if rapid.Bool().Draw(rt, "faults") {
-		x.Pos[0] = genPosFaults(rt, "fa", 40, 4, 20)
-		x.Pos[1] = genPosFaults(rt, "fb", 40, 4, 20)
+		// light loss early on, or heavy loss over a long stretch (chunks are then retransmitted more
+		// than once, and partially reliable ones are given up after several transmissions)
+		k, in := 40, 20
+		if rapid.Bool().Draw(rt, "heavy") {
+			k, in = 250, 50
+		}
+		x.Pos[0] = genPosFaults(rt, "fa", k, 4, in)
+		x.Pos[1] = genPosFaults(rt, "fb", k, 4, in)
 	}
+	x.Orch = rapid.IntRange(0, 3).Draw(rt, "orch") == 0
 	ne := rapid.IntRange(1, 4).Draw(rt, "nend")
 	for i := 0; i < ne; i++ {
 		x.End = append(x.End, c20Op{DelayUs: rapid.SampledFrom([]int{0, 0, 100, 5000, 30000}).Draw(rt, "ed"), K: rapid.SampledFrom([]string{"shutdown", "close", "abort", "close"}).Draw(rt, "ek"), V: rapid.IntRange(0, 1).Draw(rt, "eside")})
@@ -95,6 +107,9 @@ func runC20(t *testing.T, x c20Scn, verbose bool) vfCase {
 	}
 	out := vfRunE1(t, &sc, vfE1Opts{verbose: verbose, bound: func(*vfSim) time.Duration { return time.Millisecond },
 		eval: func(s *vfSim, out *vfE1Out) {
+			if !x.Orch {
+				s.net.setDirect(10137 * time.Microsecond)
+			}
 			type wrec struct {
 				writer, seq int
 				hash        uint64
@@ -217,12 +232,12 @@ func runC20(t *testing.T, x c20Scn, verbose bool) vfCase {
 				go runProg(i, p, &wg, 1)
 			}
 			go func() { wg.Wait(); s.mu.Lock(); done = true; s.mu.Unlock() }()
-			s.o.run(func() bool { s.mu.Lock(); defer s.mu.Unlock(); return done }, time.Now().Add(60*time.Second))
+			s.waitHealed(func() bool { s.mu.Lock(); defer s.mu.Unlock(); return done }, 60*time.Second)
 			s.mu.Lock()
 			d := done
 			s.mu.Unlock()
 			if !d {
-				fail("api-call-stuck", "phase 1: API goroutines did not finish within 60 virtual seconds")
+				fail("api-call-stuck", "phase 1: API goroutines did not finish within 60 virtual seconds of the last fault")
 				return
 			}
 			// everything written on the main streams must be delivered: exactly once, per-writer order
@@ -244,7 +259,7 @@ func runC20(t *testing.T, x c20Scn, verbose bool) vfCase {
 				}
 				return true
 			}
-			s.o.run(allRead, time.Now().Add(vfDrainBound(&sc)+120*time.Second))
+			s.waitHealed(allRead, vfDrainBound(&sc)+120*time.Second)
 			s.mu.Lock()
 			wmu.Lock()
 			for k, ws := range written {
@@ -314,7 +329,7 @@ func runC20(t *testing.T, x c20Scn, verbose bool) vfCase {
 				}()
 			}
 			go func() { wg2.Wait(); s.mu.Lock(); done2 = true; s.mu.Unlock() }()
-			s.o.run(func() bool { s.mu.Lock(); defer s.mu.Unlock(); return done2 }, time.Now().Add(90*time.Second))
+			s.waitHealed(func() bool { s.mu.Lock(); defer s.mu.Unlock(); return done2 }, 90*time.Second)
 			s.mu.Lock()
 			d2 := done2
 			s.mu.Unlock()
@@ -364,6 +379,10 @@ type c20Hammer struct {
 	// packets (SACKs, DATA, RE-CONFIG) arrive and are processed while the hammering goes on
 	Burst   int `json:"burst,omitempty"`
 	SleepUs int `json:"sleepus,omitempty"`
+	// Trig: instead of sleeping, the goroutine waits for the next packet to arrive at its side
+	// and then runs its burst in parallel with the processing of that packet; it keeps going
+	// through the drain phase (retransmissions, abandonment) until the case ends
+	Trig bool `json:"trig,omitempty"`
 }
 
 type c20PWriter struct {
@@ -382,9 +401,10 @@ type c20Press struct {
 	Hammers []c20Hammer  `json:"hammers"`
 	Pos     [2][]vfFD    `json:"pos"`
 	Block   bool         `json:"block,omitempty"`
+	Orch    bool         `json:"orch,omitempty"` // see c20Scn.Orch
 }
 
-var c20HammerKinds = []string{"setrel", "thresh", "onlow", "buffered", "state", "wdl", "rdl", "abuffered", "getters", "maxmsg", "smallwrite", "closestream"}
+var c20HammerKinds = []string{"setrel", "thresh", "onlow", "buffered", "state", "wdl", "rdl", "abuffered", "getters", "maxmsg", "smallwrite", "closestream", "lockspin", "lockspin"}
 
 func genC20Press(rt *rapid.T) c20Press {
 	var x c20Press
@@ -394,13 +414,13 @@ func genC20Press(rt *rapid.T) c20Press {
 	x.Cfg[0].RTOMax, x.Cfg[1].RTOMax = 2000, 2000
 	ns := rapid.IntRange(1, 3).Draw(rt, "nstreams")
 	for i := 0; i < ns; i++ {
-		x.Streams = append(x.Streams, c20PStream{Unord: rapid.Bool().Draw(rt, "unord"), RelT: rapid.IntRange(0, 2).Draw(rt, "relt"), RelV: rapid.SampledFrom([]int{0, 0, 1, 3}).Draw(rt, "relv")})
+		x.Streams = append(x.Streams, c20PStream{Unord: rapid.Bool().Draw(rt, "unord"), RelT: rapid.IntRange(0, 2).Draw(rt, "relt"), RelV: rapid.SampledFrom([]int{0, 0, 1, 2, 3, 20}).Draw(rt, "relv")})
 	}
 	nw := rapid.IntRange(1, 3).Draw(rt, "nwriters")
 	for i := 0; i < nw; i++ {
 		x.Writers = append(x.Writers, c20PWriter{Side: rapid.IntRange(0, 1).Draw(rt, "wside"), St: rapid.IntRange(0, ns-1).Draw(rt, "wst"),
 			N: rapid.IntRange(20, 150).Draw(rt, "wn"), Size: rapid.SampledFrom([]int{8, 100, 1200}).Draw(rt, "wsize"),
-			Burst: rapid.SampledFrom([]int{0, 1, 5, 20}).Draw(rt, "wburst"), SleepUs: rapid.SampledFrom([]int{100, 1000, 3000}).Draw(rt, "wsleep")})
+			Burst: rapid.SampledFrom([]int{0, 1, 5, 20}).Draw(rt, "wburst"), SleepUs: rapid.SampledFrom([]int{100, 1000, 3000, 20000}).Draw(rt, "wsleep")})
 	}
 	// blocking writes against a small peer window: writers park inside Write again and again
 	if rapid.IntRange(0, 2).Draw(rt, "block") == 0 {
@@ -421,16 +441,26 @@ func genC20Press(rt *rapid.T) c20Press {
 		}
 		x.Writers = ws
 	}
+	x.Orch = rapid.IntRange(0, 3).Draw(rt, "orch") == 0
 	nh := rapid.IntRange(1, 5).Draw(rt, "nhammers")
 	for i := 0; i < nh; i++ {
 		h := c20Hammer{Side: rapid.IntRange(0, 1).Draw(rt, "hside"), St: rapid.IntRange(0, ns-1).Draw(rt, "hst"), N: rapid.IntRange(100, 1500).Draw(rt, "hn")}
 		h.Kinds = rapid.SliceOfNDistinct(rapid.SampledFrom(c20HammerKinds), 1, 3, rapid.ID[string]).Draw(rt, "hkinds")
-		h.Burst, h.SleepUs = rapid.SampledFrom([]int{0, 0, 3, 20, 100}).Draw(rt, "hburst"), rapid.SampledFrom([]int{50, 500, 2000}).Draw(rt, "hsleep")
+		h.Burst, h.SleepUs = rapid.SampledFrom([]int{0, 0, 3, 20, 100}).Draw(rt, "hburst"), rapid.SampledFrom([]int{50, 500, 2000, 20000}).Draw(rt, "hsleep")
+		if rapid.IntRange(0, 2).Draw(rt, "htrig") == 0 {
+			h.Trig = true
+			h.Burst = rapid.SampledFrom([]int{20, 100, 300}).Draw(rt, "htburst")
+			h.N = rapid.IntRange(2000, 20000).Draw(rt, "htn")
+		}
 		x.Hammers = append(x.Hammers, h)
 	}
 	if rapid.Bool().Draw(rt, "faults") {
-		x.Pos[0] = genPosFaults(rt, "fa", 40, 4, 20)
-		x.Pos[1] = genPosFaults(rt, "fb", 40, 4, 20)
+		k, in := 40, 20
+		if rapid.Bool().Draw(rt, "heavy") {
+			k, in = 250, 50
+		}
+		x.Pos[0] = genPosFaults(rt, "fa", k, 4, in)
+		x.Pos[1] = genPosFaults(rt, "fb", k, 4, in)
 	}
 	return x
 }
@@ -447,9 +477,12 @@ func runC20Press(t *testing.T, x c20Press, verbose bool) vfCase {
 		failMu.Unlock()
 	}
 	kinds := map[string]bool{}
-	sameStream := false
+	sameStream, anyTrig := false, false
 	out := vfRunE1(t, &sc, vfE1Opts{verbose: verbose, bound: func(*vfSim) time.Duration { return time.Millisecond },
 		eval: func(s *vfSim, out *vfE1Out) {
+			if !x.Orch {
+				s.net.setDirect(10 * time.Millisecond)
+			}
 			// streams are opened and configured up front by the orchestrator
 			var hs [2][]*Stream
 			for side := 0; side < 2; side++ {
@@ -463,8 +496,28 @@ func runC20Press(t *testing.T, x c20Press, verbose bool) vfCase {
 					hs[side] = append(hs[side], h.s)
 				}
 			}
-			var wg sync.WaitGroup
-			done := false
+			var wg, wg2 sync.WaitGroup
+			done, done2 := false, false
+			stopCh := make(chan struct{})
+			var stopOnce sync.Once
+			stop := func() { stopOnce.Do(func() { close(stopCh) }) }
+			defer stop()
+			var trig [2][]chan struct{}
+			var trigMu sync.Mutex
+			var draining atomic.Bool
+			s.net.mu.Lock()
+			s.net.onArrive = func(to int) {
+				trigMu.Lock()
+				chs := trig[to]
+				trigMu.Unlock()
+				for _, ch := range chs {
+					select {
+					case ch <- struct{}{}:
+					default:
+					}
+				}
+			}
+			s.net.mu.Unlock()
 			var closedMu sync.Mutex
 			closed := map[[2]int]bool{}
 			for _, w := range x.Writers {
@@ -500,14 +553,36 @@ func runC20Press(t *testing.T, x c20Press, verbose bool) vfCase {
 				for _, k := range h.Kinds {
 					kinds[k] = true
 				}
-				wg.Add(1)
+				var ch chan struct{}
+				if h.Trig {
+					ch = make(chan struct{}, 1)
+					trigMu.Lock()
+					trig[h.Side] = append(trig[h.Side][:len(trig[h.Side]):len(trig[h.Side])], ch)
+					trigMu.Unlock()
+					wg2.Add(1)
+					anyTrig = true
+				} else {
+					wg.Add(1)
+				}
 				go func() {
-					defer wg.Done()
+					if h.Trig {
+						defer wg2.Done()
+					} else {
+						defer wg.Done()
+					}
 					a := s.as[h.Side]
 					st := hs[h.Side][h.St]
 					ps := x.Streams[h.St]
 					for i := 0; i < h.N; i++ {
-						if h.Burst > 0 && i%h.Burst == h.Burst-1 {
+						if h.Trig {
+							if i%h.Burst == h.Burst-1 {
+								select {
+								case <-ch:
+								case <-stopCh:
+									return
+								}
+							}
+						} else if h.Burst > 0 && i%h.Burst == h.Burst-1 {
 							time.Sleep(time.Duration(h.SleepUs) * time.Microsecond)
 						}
 						switch h.Kinds[i%len(h.Kinds)] {
@@ -542,6 +617,13 @@ func runC20Press(t *testing.T, x c20Press, verbose bool) vfCase {
 						case "maxmsg":
 							a.SetMaxMessageSize(65536)
 							_ = a.MaxMessageSize()
+						case "lockspin":
+							// a run of exclusive acquisitions of the stream lock: a reader that re-enters
+							// the read lock anywhere in the library meanwhile waits behind them for ever
+							for k := 0; k < 40; k++ {
+								st.SetBufferedAmountLowThreshold(uint64(k))
+								st.SetReliabilityParams(ps.Unord, byte(ps.RelT), uint32(ps.RelV))
+							}
 						case "closestream":
 							// once, in the middle of the run: the stream is closed under its writers' feet
 							if i == h.N/2 {
@@ -553,8 +635,11 @@ func runC20Press(t *testing.T, x c20Press, verbose bool) vfCase {
 								_ = st.State()
 							}
 						case "smallwrite":
-							if x.Block {
-								_ = st.BufferedAmount() // (see genC20Press: one writer per stream in blocking mode)
+							if x.Block || draining.Load() {
+								// (see genC20Press: one writer per stream in blocking mode; and a
+								// packet-triggered goroutine that writes on every acknowledgement would keep
+								// the exchange going for ever once the others are done)
+								_ = st.BufferedAmount()
 							} else if i%16 == 0 {
 								_, _ = st.WriteSCTP(vfPayload(77, 8), PayloadTypeWebRTCBinary)
 							}
@@ -564,15 +649,24 @@ func runC20Press(t *testing.T, x c20Press, verbose bool) vfCase {
 			}
 			go func() { wg.Wait(); s.mu.Lock(); done = true; s.mu.Unlock() }()
 			isDone := func() bool { s.mu.Lock(); defer s.mu.Unlock(); return done }
-			s.o.run(isDone, time.Now().Add(60*time.Second))
+			s.waitHealed(isDone, 90*time.Second)
 			if !isDone() {
-				fail("api-call-stuck", "API goroutines did not finish within 60 virtual seconds")
+				fail("api-call-stuck", "API goroutines did not finish within 90 virtual seconds of the last fault")
 				return
 			}
 			// the association must still work: everything buffered drains (or is abandoned)
+			draining.Store(true)
 			drained := func() bool { return s.as[0].BufferedAmount() == 0 && s.as[1].BufferedAmount() == 0 }
 			if !s.waitHealed(drained, vfDrainBound(&sc)+120*time.Second) {
 				fail("not-drained", "after the concurrent phase the senders still report %d / %d buffered bytes", s.as[0].BufferedAmount(), s.as[1].BufferedAmount())
+				return
+			}
+			stop()
+			go func() { wg2.Wait(); s.mu.Lock(); done2 = true; s.mu.Unlock() }()
+			isDone2 := func() bool { s.mu.Lock(); defer s.mu.Unlock(); return done2 }
+			s.o.run(isDone2, time.Now().Add(60*time.Second))
+			if !isDone2() {
+				fail("api-call-stuck", "packet-triggered API goroutines did not finish within 60 virtual seconds")
 			}
 		}})
 	if out.Panic != "" && c.Verdict == "" {
@@ -600,6 +694,12 @@ func runC20Press(t *testing.T, x c20Press, verbose bool) vfCase {
 	if x.Block {
 		c.class("blocking-writes")
 	}
+	if !x.Orch {
+		c.class("parallel-delivery")
+	}
+	if anyTrig {
+		c.class("packet-triggered-hammer")
+	}
 	c.Nontrivial = sameStream && len(kinds) >= 2
 	if (c.Verdict != "" || verbose) && out.sim != nil {
 		c.Detail = out.sim.history(100)
@@ -614,6 +714,15 @@ func runC20Press(t *testing.T, x c20Press, verbose bool) vfCase {
 // lock. That is deadlock-free only if a timer never invokes its observer with its own mutex
 // held. Generated timer scripts (those of C19) run with observers that try the mutex.
 
+var c20HeldSeen atomic.Bool
+
+// vfRealNanos reads the real clock (time.Now is virtual inside a bubble).
+func vfRealNanos() int64 {
+	var tv syscall.Timeval
+	_ = syscall.Gettimeofday(&tv)
+	return tv.Sec*1e9 + tv.Usec*1e3
+}
+
 type c20TimerObs struct {
 	mu     sync.Mutex
 	rtx    *rtxTimer
@@ -627,17 +736,25 @@ func (o *c20TimerObs) probe(what string, isAck bool) {
 	o.mu.Lock()
 	o.n++
 	o.mu.Unlock()
-	// only the mutex of the timer that is calling back is probed; another goroutine may hold
-	// it for a moment (then a retry succeeds), the calling goroutine itself would hold it for ever
+	// only the mutex of the timer that is calling back is probed; another goroutine (the script,
+	// another expiry of the same timer) may hold it for a moment, the calling goroutine itself
+	// would hold it for ever. "A moment" is measured in real time (the bubble's clock stands
+	// still here): a holder that was descheduled on a busy machine gets two seconds to come back
+	// before the mutex counts as held by the caller; once that was seen in this process, later
+	// probes are short so that shrinking stays quick.
 	try := func(tryLock func() bool, unlock func()) bool {
-		for i := 0; i < 50; i++ {
+		start := vfRealNanos()
+		for i := 0; ; i++ {
 			if tryLock() {
 				unlock()
 				return true
 			}
 			runtime.Gosched()
+			if i >= 50 && (c20HeldSeen.Load() || vfRealNanos()-start > 2e9) {
+				c20HeldSeen.Store(true)
+				return false
+			}
 		}
-		return false
 	}
 	if !isAck && o.rtx != nil {
 		if try(o.rtx.mutex.TryLock, o.rtx.mutex.Unlock) {
@@ -717,7 +834,7 @@ func TestVF_C20(t *testing.T) {
 	vfExplore(t, "C20", "concurrent-api", vfN(480, 12000), genC20, func(x c20Scn) vfCase { return runC20(t, x, vfEnv.Replay != "") })
 	// a deadlocked case never returns; each case finishes in well under a second of real time
 	vfWatchdogLimit.Store(int64(60 * time.Second))
-	vfExplore(t, "C20", "lock-pressure", vfN(60, 2000), genC20Press, func(x c20Press) vfCase { return runC20Press(t, x, vfEnv.Replay != "") })
+	vfExplore(t, "C20", "lock-pressure", vfN(150, 4000), genC20Press, func(x c20Press) vfCase { return runC20Press(t, x, vfEnv.Replay != "") })
 	vfWatchdogLimit.Store(0)
 	vfExplore(t, "C20", "timer-callbacks", vfN(1600, 40000), genC19Timer, func(sc c19Timer) vfCase { return runC20Timers(t, sc) })
 }
